@@ -17,6 +17,7 @@ from .model import (MUTATORS, ClassInfo, FuncInfo, Model, call_name, eval_order,
 from .overlay import AnalysisError
 
 NONE, CLEAN, DIRTY = 0, 1, 2
+NAND = '\x00nand'      # pseudo-attribute of the state: pairs 'a|b' of derived attributes known NOT to be both non-None
 LEVEL = {0: 'NONE', 1: 'CLEAN', 2: 'DIRTY'}
 
 # state: attr -> (level, pins, cause)
@@ -56,6 +57,11 @@ def _join(a: Optional[State], b: Optional[State]) -> Optional[State]:
         return a
     out: State = {}
     for d in a:
+        if d == NAND:
+            # "not both non-None" facts hold after the join only if they hold on both sides
+            fa, fb = a[d][1] or frozenset(), (b.get(d) or (NONE, frozenset(), None))[1] or frozenset()
+            out[d] = (NONE, fa & fb, None)
+            continue
         la, pa, ca = a[d]
         lb, pb, cb = b[d]
         lvl = max(la, lb)
@@ -200,6 +206,8 @@ class DSF:
     def assign_derived(self, st: State, d: str, value: Optional[ast.AST], node: ast.AST) -> State:
         self.touched.add(d)
         out = dict(st)
+        if NAND in out and out[NAND][1]:
+            out[NAND] = (NONE, frozenset(p for p in out[NAND][1] if d not in p.split('|')), None)
         if isinstance(value, ast.Constant) and value.value is None:
             out[d] = (NONE, None, None)            # R2: a reset does not dirty dependents
             return out
@@ -459,6 +467,19 @@ class DSF:
             test, neg = test.operand, not neg
         conj = test.values if isinstance(test, ast.BoolOp) and isinstance(test.op, ast.And) else [test]
         t, f = dict(st), dict(st)
+        # `if a is not None and b is not None:` - on the FALSE edge the two are not both non-None
+        pats = [pat(c) for c in conj]
+        if len(conj) == 2 and all(p is not None and not p[1] and p[0] in self.derived for p in pats):
+            pair = '|'.join(sorted((pats[0][0], pats[1][0])))
+            f[NAND] = (NONE, (f.get(NAND, (NONE, frozenset(), None))[1] or frozenset()) | {pair}, None)
+        # `if a is None:` false edge (a is not None) / `if a is not None:` true edge, with a recorded pair (a, b): b is None
+        if len(conj) == 1 and pats[0] is not None and pats[0][0] in self.derived:
+            a0, isnone0 = pats[0]
+            edge = f if isnone0 else t
+            for pr in (st.get(NAND, (NONE, frozenset(), None))[1] or frozenset()):
+                x, y = pr.split('|')
+                if a0 in (x, y):
+                    edge[y if a0 == x else x] = (NONE, None, None)
         for c in conj:
             p = pat(c)
             if p is None or p[0] not in self.derived:
